@@ -595,6 +595,14 @@ def run(ctx):
                                 "compared by class and path]")
         words, st4 = evaluate(ctx, [sessions[i] for i in rep], bp)
         stats = [x + y for x, y in zip(stats, st4)]
+        # 2^20 + ...: the model declares the step outside itself; accepted only where the harness's own observation of
+        # the primitives says the same (a folder moved below a missing parent: shutil's copytree fallback)
+        arte = [(i, w) for i, w in zip(rep, words) if w >= 1048576]
+        words = [w if w < 1048576 else
+                 (0 if (0 <= (w - 1048576) // 64 - 1 < len(sessions[i].steps)
+                        and sessions[i].steps[(w - 1048576) // 64 - 1].unmodelled) else w - 1048576 + 63)
+                 for i, w in zip(rep, words)]
+        ctx.count("sessions_ending_in_behaviour_outside_the_model", len(arte))
         mism = [(i, w) for i, w in zip(rep, words) if w]
         mis_step = {i: describe(w)[0] for (i, w) in mism}
         # ---- oracle verdicts (computed next to the real run, on the live objects)
